@@ -3,6 +3,7 @@ package yqlib
 import (
 	"container/list"
 	"fmt"
+	"math"
 	"sort"
 	"strconv"
 	"strings"
@@ -159,21 +160,21 @@ func (a sortableNodeArray) compare(lhs *CandidateNode, rhs *CandidateNode, dateT
 	} else if lhsTag == "!!int" && rhsTag == "!!int" {
 		_, lhsNum, err := parseInt64(lhs.Value)
 		if err != nil {
-			panic(err)
+			return strings.Compare(lhs.Value, rhs.Value)
 		}
 		_, rhsNum, err := parseInt64(rhs.Value)
 		if err != nil {
-			panic(err)
+			return strings.Compare(lhs.Value, rhs.Value)
 		}
 		return int(lhsNum - rhsNum)
 	} else if (lhsTag == "!!int" || lhsTag == "!!float") && (rhsTag == "!!int" || rhsTag == "!!float") {
-		lhsNum, err := strconv.ParseFloat(lhs.Value, 64)
+		lhsNum, err := parseFloat64(lhs.Value)
 		if err != nil {
-			panic(err)
+			return strings.Compare(lhs.Value, rhs.Value)
 		}
-		rhsNum, err := strconv.ParseFloat(rhs.Value, 64)
+		rhsNum, err := parseFloat64(rhs.Value)
 		if err != nil {
-			panic(err)
+			return strings.Compare(lhs.Value, rhs.Value)
 		}
 		if lhsNum == rhsNum {
 			return 0
@@ -185,4 +186,17 @@ func (a sortableNodeArray) compare(lhs *CandidateNode, rhs *CandidateNode, dateT
 	}
 
 	return strings.Compare(lhs.Value, rhs.Value)
+}
+
+// parseFloat64 also understands the YAML spellings of infinity and not-a-number
+func parseFloat64(value string) (float64, error) {
+	switch strings.ToLower(value) {
+	case ".inf", "+.inf":
+		return math.Inf(1), nil
+	case "-.inf":
+		return math.Inf(-1), nil
+	case ".nan":
+		return math.NaN(), nil
+	}
+	return strconv.ParseFloat(value, 64)
 }
